@@ -714,7 +714,7 @@ impl Check for C13
 	}
 	fn rule(&self) -> String
 	{
-		"rejected (and lint-carrying) inputs from: byte/token-mutated corpus files, generated programs with 1-3 token edits in plain or random layout (CRLF, multi-byte comments), token soup, a single offending character planted before a random token of a generated program with multi-byte comments / CRLF before it, one of 13 ill-formed declarations planted into a generated program printed in a random layout with multi-byte comments, one of 22 functions with a fault inside an expression (bit casts, lengths, addresses, strings, indices, members, calls, array literals, shifts, casts) planted the same way, generated programs with one type-breaking edit (C07's editor) in a random layout, cyclic dependency graphs of constants and structures (C11's generator; every case compiled again in two fresh processes), module sets with imports, correctly split multi-file programs, and 18 fixed edge files (empty, whitespace-only, fault on the last line / at EOF without newline, CRLF with multi-byte text). Oracle, for every diagnostic: (1) code in the published catalogue (docs/errors.md headings parsed live + 8 frozen codes); (2) primary location names a compiled file, 0 <= start <= end <= chars, and the line containing `start` is the reported line; (3) for undefined/duplicate-name variants the text at the span equals the name, for a planted character the span covers it; (4) build_report + Report::write succeeds (a panic of the renderer counts as failure) and the report rendered without colour contains the text of the reported source line for {colour on/off} x {unicode, ascii}, no ESC byte without colour, ASCII-only output for ASCII sources with ascii arrows; (4c) a file that does not end in a newline gets the same non-lexical diagnostics, locations and reports as the same file with a final newline; (5) on a sample (every 10th/20th case, every module set, every split program, every edge file) the case is compiled again in two fresh processes: verdict, ordered codes, locations, rendered text and all IR text must be identical. Non-trivial: diagnostic from the scoper or later, or on line >= 2 after a non-ASCII character or CR; distinct by source.".into()
+		"rejected (and lint-carrying) inputs from: byte/token-mutated corpus files, generated programs with 1-3 token edits in plain or random layout (CRLF, multi-byte comments), token soup, a single offending character planted before a random token of a generated program with multi-byte comments / CRLF before it, one of 13 ill-formed declarations planted into a generated program printed in a random layout with multi-byte comments, one of 22 functions with a fault inside an expression (bit casts, lengths, addresses, strings, indices, members, calls, array literals, shifts, casts) planted the same way, such operator chains planted the same way, generated programs with one type-breaking edit (C07's editor) in a random layout, cyclic dependency graphs of constants and structures (C11's generator; every case compiled again in two fresh processes), module sets with imports, correctly split multi-file programs, and 18 fixed edge files (empty, whitespace-only, fault on the last line / at EOF without newline, CRLF with multi-byte text). Oracle, for every diagnostic: (1) code in the published catalogue (docs/errors.md headings parsed live + 8 frozen codes); (2) primary location names a compiled file, 0 <= start <= end <= chars, and the line containing `start` is the reported line; (3) for undefined/duplicate-name variants the text at the span equals the name, for a planted character the span covers it; (3b) in a chain of 3-6 operands joined by one operator (+ - * / % | & ^), one operand per line, exactly one operand of another type, an E551 starts on the line of the operator that joins that operand to the rest; (4) build_report + Report::write succeeds (a panic of the renderer counts as failure) and the report rendered without colour contains the text of the reported source line for {colour on/off} x {unicode, ascii}, no ESC byte without colour, ASCII-only output for ASCII sources with ascii arrows; (4c) a file that does not end in a newline gets the same non-lexical diagnostics, locations and reports as the same file with a final newline; (5) on a sample (every 10th/20th case, every module set, every split program, every edge file) the case is compiled again in two fresh processes: verdict, ordered codes, locations, rendered text and all IR text must be identical. Non-trivial: diagnostic from the scoper or later, or on line >= 2 after a non-ASCII character or CR; distinct by source.".into()
 	}
 	fn assumptions(&self) -> Vec<String>
 	{
